@@ -153,6 +153,7 @@ type mock struct {
 	sigch   chan struct{}
 	ever    bool
 	active  int
+	gen     int // number of cycle resets (mirrors lifecycle.StartStop after /repo b0569e6)
 	release chan relMsg
 }
 
@@ -166,9 +167,14 @@ func (m *mock) String() string { return "child-" + strconv.Itoa(m.spec.Name) }
 
 func (m *mock) Run(ctx context.Context) error {
 	m.mu.Lock()
-	if m.ever && m.active == 0 && m.sig {
-		m.sig = false
-		m.sigch = make(chan struct{})
+	if m.ever && m.active == 0 {
+		// a new cycle: the stop signal is cleared and Stop() callers still waiting are released
+		m.gen++
+		if m.sig {
+			m.sig = false
+			m.sigch = make(chan struct{})
+		}
+		m.cond.Broadcast()
 	}
 	m.ever = true
 	m.active++
@@ -206,7 +212,8 @@ func (m *mock) Stop() {
 		close(m.sigch)
 	}
 	if m.spec.Style == "U" {
-		for !(m.ever && m.active == 0) {
+		gen := m.gen
+		for !(m.ever && m.active == 0) && m.gen == gen {
 			m.cond.Wait()
 		}
 	}
